@@ -4,8 +4,9 @@ import os, subprocess, shutil
 from . import common, ref, delta, server
 
 
-def run_zckdl(bd, cwd, url, src=None, kill=None, timeout=60, fault=None, trace=None, extra=()):
-    """fault: list of (kind, role, nth, action) with role tgt (the target) or src (the local source)"""
+def run_zckdl(bd, cwd, url, src=None, kill=None, timeout=60, fault=None, trace=None, extra=(), nofd=()):
+    """fault: list of (kind, role, nth, action) with role tgt (the target) or src (the local source);
+    nofd: standard descriptors the tool is started without (a daemon's or cron job's environment): the files it opens get those numbers"""
     env = dict(os.environ)
     name = os.path.basename(url)
     env["ZV_ROLES"] = "tgt=%s" % name + (";src=%s" % src if src else "")
@@ -17,7 +18,8 @@ def run_zckdl(bd, cwd, url, src=None, kill=None, timeout=60, fault=None, trace=N
         env["ZV_TRACE"] = trace
     args = [os.path.join(bd, "zckdl")] + list(extra) + (["-s", src] if src else []) + [url]
     try:
-        p = subprocess.run(args, cwd=cwd, env=env, stdout=subprocess.PIPE, stderr=subprocess.PIPE, timeout=timeout)
+        pre = (lambda: [os.close(x) for x in nofd]) if nofd else None
+        p = subprocess.run(args, cwd=cwd, env=env, stdout=subprocess.PIPE, stderr=subprocess.PIPE, timeout=timeout, preexec_fn=pre)
         return p.returncode
     except subprocess.TimeoutExpired:
         return "Hang"
